@@ -324,12 +324,32 @@ func (vc *VC) evalBinary(x *ast.BinaryExpr, st *State) Value {
 		l := vc.term(vc.evalExpr(x.X, st), x.Pos())
 		// the right operand is only evaluated when needed: obligations inside it
 		// are generated under the extended path condition
-		st2 := &State{vars: st.vars, pc: tAnd(st.pc, l)}
+		taken := l
 		if x.Op == token.LOR {
-			st2.pc = tAnd(st.pc, tNot(l))
+			taken = tNot(l)
 		}
-		st2.pc = vc.definePC(st2.pc)
+		st2 := st.clone()
+		st2.pc = vc.definePC(tAnd(st.pc, taken))
 		r := vc.term(vc.evalExpr(x.Y, st2), x.Pos())
+		// effects of the right operand (calls that modify their receiver) happen
+		// only when it is evaluated
+		for o, nv := range st2.vars {
+			ov, had := st.vars[o]
+			if !had {
+				st.vars[o] = nv
+				continue
+			}
+			if sameValue(ov, nv) {
+				continue
+			}
+			nt, ok1 := nv.(Term)
+			ot, ok2 := ov.(Term)
+			if ok1 && ok2 {
+				st.vars[o] = vc.define(o.Name(), tIte(taken, nt, ot))
+			} else {
+				st.vars[o] = nv
+			}
+		}
 		if x.Op == token.LAND {
 			return withType(tAnd(l, r), t)
 		}
@@ -349,7 +369,7 @@ func (vc *VC) evalBinary(x *ast.BinaryExpr, st *State) Value {
 		case token.ADD:
 			return Term{fmt.Sprintf("(gs.cat %s %s)", l.S, r.S), SStr, t}
 		case token.LSS, token.GTR, token.LEQ, token.GEQ:
-			vc.ss.declare(&sortInfo{Name: "str$lt", Kind: "const", Decl: "(declare-fun gs.lt (Str Str) Bool)"})
+			vc.ss.declare(&sortInfo{Name: "str$lt", Kind: "const", Decl: strLtDecl})
 			lt := Term{fmt.Sprintf("(gs.lt %s %s)", l.S, r.S), SBool, t}
 			gt := Term{fmt.Sprintf("(gs.lt %s %s)", r.S, l.S), SBool, t}
 			switch x.Op {
